@@ -12,15 +12,31 @@ RULE = (
 )
 ASSUMPTIONS = ["CPython 3.12 (PEP 701 f-strings) is the reference; both renderings come from one structure built by this module"]
 
-ENV = dict(x=42, y=-3.5, s="hé'\"", w=8, p=2, lst=[1, 2], n=None, z=0)
-EXPRS = [("x", "x"), ("y", "y"), ("s", "s"), ("w", "w"), ("n", "n"), ("lst", "lst"), ("42", "42"), ("-1.5", "-1.5"), ('"lit"', "'lit'"), ("(+ x 1)", "(x + 1)"),
+class Money:
+    """a value whose format(), str() and repr() all differ (conversions must be applied before formatting)"""
+
+    def __init__(self, v):
+        self.v = v
+
+    def __format__(self, spec):
+        return "$" + format(self.v, spec or ".2f")
+
+    def __str__(self):
+        return "Money<%s>" % self.v
+
+    def __repr__(self):
+        return "Money(%r)" % self.v
+
+
+ENV = dict(x=42, y=-3.5, s="hé'\"", w=8, p=2, lst=[1, 2], n=None, z=0, m=Money(3.5))
+EXPRS = [("m", "m"), ("x", "x"), ("y", "y"), ("s", "s"), ("w", "w"), ("n", "n"), ("lst", "lst"), ("42", "42"), ("-1.5", "-1.5"), ('"lit"', "'lit'"), ("(+ x 1)", "(x + 1)"),
          ("(* y 2)", "(y * 2)"), ("(len s)", "len(s)"), ("(.upper s)", "s.upper()"), ("(get lst 0)", "lst[0]"), ("[x y]", "[x, y]"), ("#(x s)", "(x, s)"),
          ('{"k" x}', "{'k': x}"), ("(if z 1 2)", "(1 if z else 2)"), ("(str x)", "str(x)"), ("(repr s)", "repr(s)"), ('(.join "-" ["a" "b"])', "'-'.join(['a', 'b'])"),
          ("(not z)", "(not z)"), ("(= x 42)", "(x == 42)"), ("s.__class__.__name__", "s.__class__.__name__"), ("(. lst [0])", "lst[0]"),
          ('f"{x}"', 'f"{x}"'), ('f"a{w}b{p}"', 'f"a{w}b{p}"'), ('f"{f"{x}"}"', 'f"{f"{x}"}"')]
 # expressions whose source text is the same in both languages (the = text is that source text); the nested f-strings have
 # replacement fields of their own, whose text must appear in the outer field's = text as well
-DEBUGGABLE = ["x", "y", "s", "w", "n", "42", "lst", 'f"{x}"', 'f"a{w}b{p}"', 'f"{f"{x}"}"']
+DEBUGGABLE = ["m", "x", "y", "s", "w", "n", "42", "lst", 'f"{x}"', 'f"a{w}b{p}"', 'f"{f"{x}"}"']
 LITS = [("a", "a"), (" ", " "), ("{{", "{{"), ("}}", "}}"), ("x=", "x="), ("'", "'"), ("(", "("), ("\\n", "\\n"), ("\\t", "\\t"), ("\\N{DIGIT ONE}", "\\N{DIGIT ONE}"),
         ('\\"', '\\"'), ("\n", "\n"), (":", ":"), ("!", "!"), ("é", "é"), ("\\\\", "\\\\"), ("\\x41", "\\x41"), ("#", "#"), (";", ";"), ("\U0001F600", "\U0001F600")]
 RAWLITS = [("a", "a"), (" ", " "), ("{{", "{{"), ("}}", "}}"), ('"', '"'), ("\\n", "\\n"), ("\n", "\n"), (":", ":"), ("é", "é"), ("[", "["), ("\\d", "\\d")]
